@@ -9,5 +9,21 @@ def run(tier, seed):
     if PROVED_TARGETS:
         out.add_pyvc(common.pyvc_run(PROVED_TARGETS, timeout_ms=10000 if tier == "quick" else 60000))
     ctrl_common.explore(out, "C02", tier, seed)
+    # last sentence of the property ("a worker never starts the task before all of those datasets have actually arrived on its host"): the REAL
+    # worker main loop over every order of a task sequence and the publications of its inputs (shared with the C05 stand-in)
+    import time as _t
+    from checks import c05_bounded
+    t0, fails, seen = _t.time(), [], set()
+
+    def add(ob, desc, what, cls="other"):
+        if ob.startswith("C02/") and (ob, cls) not in seen:
+            seen.add((ob, cls))
+            fails.append({"obligation": ob, "inputs": desc, "observed": what[:500], "class": cls, "clause": ob})
+    try:
+        n = c05_bounded.entrypoint_cases(add)
+        out.add_bounded("worker main loop", "exhaustive enumeration", "runner.entrypoint.entrypoint over every order of a task sequence and the publications of its 1..3 inputs "
+                        "(load of none / each input failing) and two-task sequences whose first task needs an outside dataset", n, n, _t.time() - t0, [{"cases": n}], fails)
+    except Exception as e:  # noqa
+        out.crashes.append(f"worker-loop stand-in crashed: {type(e).__name__}: {e}")
     out.assumptions += ctrl_common.ASSUMPTIONS
     return out.finish("exploration", rule="see bounded_standins[].bound", explanation="real controller.impl.run + scheduler + worker-side execute_sequence/run/Memory against a simulated cluster; monitors computed from traffic and simulator ground truth")
